@@ -29,9 +29,19 @@ Fixpoint increasing (l : list N) : Prop :=
   | x :: r => (match r with [] => True | y :: _ => x < y end) /\ increasing r
   end.
 
+(* quarantine: the id of a file of the corrupted directory is below the next id of a running storage and is not the id
+   of any blob (it is never handed out again); a running storage has no unreadable file in its work directory (open moved
+   them all); the counter of corrupted blobs is the number of files in the corrupted directory *)
+Definition QuarOk (s : storage) : Prop :=
+  (s_open s = true -> forall q, In q (s_quar s) -> q < s_next s) /\
+  (forall b, In b (blobs_in_order s) -> ~ In (b_id b) (s_quar s)) /\
+  (s_open s = true -> s_bad s = []) /\
+  s_corrupted s = N.of_nat (length (s_quar s)).
+
 Definition IdsOk (s : storage) : Prop :=
   increasing (map b_id (blobs_in_order s)) /\
-  (s_open s = true -> forall b, In b (blobs_in_order s) -> b_id b < s_next s).
+  (s_open s = true -> forall b, In b (blobs_in_order s) -> b_id b < s_next s) /\
+  QuarOk s.
 
 (* a closed storage is just files: no active blob object *)
 Definition NoActiveWhenClosed (s : storage) : Prop := s_open s = false -> s_active s = None.
